@@ -8,6 +8,7 @@ mod c05;
 mod c06;
 mod c07;
 mod c11;
+mod c12;
 mod c14;
 mod c14m;
 mod c15;
@@ -94,6 +95,7 @@ const CHECKS: &[(&str, CheckFn)] = &[
     ("C09", redir::c09),
     ("C10", redir::c10),
     ("C11", c11::c11),
+    ("C12", c12::c12),
     ("C14", c14m::c14),
     ("C15", c15::c15),
     ("C16", c16::c16),
@@ -112,6 +114,7 @@ const REPLAYERS: &[(&str, ReplayFn)] = &[
     ("c09", redir::replay09),
     ("c10", redir::replay10),
     ("c11", c11::replay),
+    ("c12", c12::replay),
     ("c14", c14m::replay),
     ("c15", c15::replay),
     ("c16", c16::replay),
